@@ -69,6 +69,7 @@ class Task:
         self.pool = pool
         self.state = "queued" if pool is not None else "ready"
         self.cond = None
+        self.timeout = None
         self.ev = threading.Event()
         self.exc = None
         self.result = None
@@ -161,19 +162,33 @@ class Sched:
                 out.append(t)
             elif t.state == "blocked" and t.cond():
                 out.append(t)
+            elif t.state == "blocked" and t.timeout is not None:
+                # a wait with a deadline: the other processes may be arbitrarily slow (stalled-node fault),
+                # so the deadline can pass at any point at which the wait is still unsatisfied
+                out.append(t)
             elif t.state == "queued" and t.pool.free_slot():
                 out.append(t)
         return out
 
-    def yield_(self, why, cond=None, extra=None):
+    def yield_(self, why, cond=None, extra=None, timeout=None):
+        """Returns True normally; False if a wait with a deadline timed out."""
         me = self.cur()
         self.log(why, me.name, extra)
+        me.timeout = None
         if cond is not None and not cond():
             me.state = "blocked"
             me.cond = cond
+            me.timeout = timeout
         else:
             me.state = "ready"
         self.switch(me)
+        if cond is not None and me.timeout is not None:
+            me.timeout = None
+            if not cond():
+                self.ctx.counters.inc("deadline_expired")
+                self.log(why + ":timeout", me.name)
+                return False
+        return True
 
     def switch(self, me):
         self.n_switch += 1
@@ -204,6 +219,14 @@ class Sched:
         """Who runs next.  Every policy is a legal OS schedule; all randomness comes from the tape."""
         if len(cands) == 1:
             return cands[0]
+        # waits whose deadline could expire: let the deadline pass only now and then (most runs should progress)
+        expiring = [t for t in cands if t.state == "blocked" and t.timeout is not None and not t.cond()]
+        if expiring:
+            rest = [t for t in cands if t not in expiring]
+            if rest and not self.tape.chance(0.15):
+                cands = rest
+                if len(cands) == 1:
+                    return cands[0]
         pol = self.policy
         pool = cands
         if pol == "sticky" and me in cands and self.tape.chance(0.85):
@@ -245,14 +268,34 @@ class SimQueue:
         self.s = s
         self.items = []
 
-    def put(self, x):
+    def put(self, x, block=True, timeout=None):
         self.s.yield_("put:pre")
         self.items.append(x)
         self.s.yield_("put:post")
 
-    def get(self):
-        self.s.yield_("get", cond=lambda: len(self.items) > 0)
+    def get(self, block=True, timeout=None):
+        import queue as _queue
+        if not block:
+            self.s.yield_("get:nowait")
+            if not self.items:
+                raise _queue.Empty()
+            return self.items.pop(0)
+        ok = self.s.yield_("get", cond=lambda: len(self.items) > 0, timeout=timeout)
+        if not ok:
+            raise _queue.Empty()
         return self.items.pop(0)
+
+    def get_nowait(self):
+        return self.get(block=False)
+
+    def put_nowait(self, x):
+        self.put(x)
+
+    def empty(self):
+        return not self.items
+
+    def qsize(self):
+        return len(self.items)
 
 
 class SimResult:
@@ -261,13 +304,16 @@ class SimResult:
         self.task = task
 
     def get(self, timeout=None):
-        self.s.yield_("job.get", cond=lambda: self.task.state == "done")
+        ok = self.s.yield_("job.get", cond=lambda: self.task.state == "done", timeout=timeout)
+        if not ok:
+            import multiprocessing
+            raise multiprocessing.TimeoutError()
         if self.task.exc is not None:
             raise self.task.exc
         return self.task.result
 
     def wait(self, timeout=None):
-        self.s.yield_("job.wait", cond=lambda: self.task.state == "done")
+        self.s.yield_("job.wait", cond=lambda: self.task.state == "done", timeout=timeout)
 
     def ready(self):
         return self.task.state == "done"
